@@ -46,8 +46,7 @@ META = dict(
           "(contiguous blocks, multiplier 1 or 2 with the inner counts divided, nested) built from a nested list, "
           "the stated subset of them also printed and parsed, every insertion order of the dict constructor, and "
           "three arithmetic spellings per permutation.  Distinct = distinct (class, member spelling).  Non-trivial = "
-          "a member whose atoms are not already listed in the order of its Hill form, or that is grouped, or whose "
-          "class contains a pair of atoms the sort must order (>= 2 distinct atoms)."),
+          "a member of a class with >= 2 distinct atoms (the sort has something to order)."),
     bound=dict(
         quick=("classes of n <= 3 entries.  dict (every insertion order), arith (3 spellings x every permutation), "
                "struct flat x every permutation: complete.  struct groupings: n <= 2 all; n = 3 all 15 per permutation "
